@@ -1,3 +1,40 @@
-import Orda.Model.Api
+/-
+C10 — A datatype restored from its snapshot is indistinguishable from the original.
+In the model a snapshot IS the datatype state (the marshaled form carries exactly the fields the
+model keeps; that Go's marshal/unmarshal is faithful to it is what the correspondence check and its
+twin oracle establish).  The theorems are about everything that happens AFTER the restore.
+-/
+import Orda.Proofs.SeqSnap
 namespace Orda.Props.C10
+open Orda
+
+/-- the restored instance has the original's readable state and next identifiers -/
+theorem restored_same_core (src : Replica) : (Replica.importFrom src).core = src.core := import_core src
+
+/-- … and sound rollback data (the restored state is its own rollback point) -/
+theorem restored_rollback_sound (src : Replica) : (Replica.importFrom src).RbInv := import_rbInv src
+
+/-- one step: replicas with the same core react identically — same results, same emitted operations,
+    same new core -/
+theorem same_reaction (r1 r2 : Replica) (st : Step) (hc : r1.core = r2.core) (h1 : r1.RbInv) (h2 : r2.RbInv)
+    (hf : ∀ ops, st = .recv ops → ∀ o ∈ ops, o.id.cuid ≠ r1.opId.cuid)
+    (hp : (r1.step st).2.noPanic = true) :
+    (r1.step st).2 = (r2.step st).2 ∧ (r1.step st).1.core = (r2.step st).1.core ∧
+    (r1.step st).1.RbInv ∧ (r2.step st).1.RbInv :=
+  step_bisim r1 r2 st hc h1 h2 hf hp
+
+/-- every continuation — any sequence of local calls, transactions (failing or not) and remote
+    deliveries — is answered by the restored copy exactly as by the original -/
+theorem restored_indistinguishable (r : Replica) (h : r.RbInv) (steps : List Step)
+    (hf : ∀ st ∈ steps, ∀ ops, st = .recv ops → ∀ o ∈ ops, o.id.cuid ≠ r.opId.cuid)
+    (hp : ∀ o ∈ (r.run steps).2, o.noPanic = true) :
+    ((Replica.importFrom r).run steps).2 = (r.run steps).2 ∧
+    ((Replica.importFrom r).run steps).1.core = (r.run steps).1.core :=
+  Orda.restored_indistinguishable r h steps hf hp
+
+/-- exporting the restored instance again yields the same snapshot (state and identifiers) -/
+theorem reexport_equal (src : Replica) :
+    (Replica.importFrom (Replica.importFrom src)).core = (Replica.importFrom src).core :=
+  import_core _
+
 end Orda.Props.C10
